@@ -878,7 +878,7 @@ def gen_c19(ctx):
             c['fam'] = 'rand'; c['m'] = rng.choice([1, 2, 4, 7, 13, 21]); c['dens'] = rng.choice([0.1, 0.3, 0.7]); c['transversal'] = 0
             if rng.random() < 0.2: c['emptycol'] = rng.randrange(n)
             if sub in ('gemv', 'gemm'):
-                c['trans'] = rng.choice(['N', 'T', 'C']); c['alpha'] = rng.randrange(5); c['beta'] = rng.randrange(5)
+                c['trans'] = rng.choice(['N', 'T', 'C']); c['alpha'] = rng.randrange(7); c['beta'] = rng.randrange(7)
                 if rng.random() < 0.5: c['xzero'] = rng.choice([1, 1, 2, 2, 3, 4])
                 if rng.random() < 0.2: c['yzero'] = 1
                 if sub == 'gemv':
@@ -1025,6 +1025,10 @@ def gen_c15(ctx):
         for rt, nv in ARG_TABLE.items():
             for v in range(nv):
                 out.append(({'variant': 'asan' if (v % 2 == 0) else 'plain', 'prec': prec}, {'cmd': 'args', 'rt': rt, 'v1': v, 'n': 4 + v % 3, 'seed': 7 + v}))
+            if rt in ('gssv', 'gssvx'):
+                # every single violation once more with A handed over row-wise (SLU_NR)
+                for v in range(nv):
+                    out.append(({'variant': 'asan' if v % 2 else 'plain', 'prec': prec}, {'cmd': 'args', 'rt': rt, 'v1': v, 'n': 4 + v % 3, 'seed': 13 + v, 'anr': 1}))
             if rt in ('gssv', 'gssvx', 'gstrs', 'gsrfs'):
                 # every single violation once more on a call without right-hand sides (legal by itself)
                 for v in range(nv):
@@ -1375,13 +1379,13 @@ def gen_c18(ctx):
     # overwritten after many calls shows here.  Probes are complete expert-driver calls (every output incl. rcond, ferr, berr
     # is in the digest), many of them because only some inputs are sensitive to a given piece of carried-over state.
     NL = 1200 if ctx.quick else 12000
-    sweeps = ['fam:rand;dens:0.15;ops:E;nps:1;sweep:150;seed:%d', 'fam:band;ops:E,V;nps:1;sweep:100;seed:%d', 'fam:grid;ops:E,F,S1,D;nps:1;sweep:60;seed:%d;w:2;relax:2',
+    sweeps = ['fam:band;ops:E;nps:1;sweep:12;seed:%d;rscale:20;cscale:20', 'fam:rand;dens:0.15;ops:E;nps:1;sweep:150;seed:%d', 'fam:band;ops:E,V;nps:1;sweep:100;seed:%d', 'fam:grid;ops:E,F,S1,D;nps:1;sweep:60;seed:%d;w:2;relax:2',
               'fam:rand;dens:0.2;vals:hostile;dom:row;ops:E;nps:1;sweep:150;seed:%d']
     for i in range(NL):
         c = hist_base(rng, ctx.quick, nmax=44)
         if rng.random() < 0.3: c['fam'] = 'svd'; c['cond'] = rng.choice([1e3, 1e6, 1e9]); c['n'] = min(c['n'], 30)
         elif rng.random() < 0.3: c['vals'] = 'hostile'; c['dom'] = 'row'
-        c['ops'] = rng.choice(['E', 'E', 'E', 'V', 'F,S0', 'E3', 'E4']); c['nps'] = '1'
+        c['ops'] = rng.choice(['E', 'E', 'E', 'V', 'F,S0', 'E3', 'E4', 'E1', 'E1']); c['nps'] = '1'      # E1: an exactly zero column (equilibration stops early)
         if rng.random() < 0.25: c['zerorhs'] = rng.choice([1, 1, 2])      # thresholds for tiny denominators come into play
         prec = rng.choice(PRECS)
         a = dict(c); a['probe'] = 1000 + i
@@ -1491,6 +1495,7 @@ def gen_c20(ctx):
     N = 4000 if ctx.quick else 40000
     d = os.path.join(getattr(ctx, 'workdir', '/verif/.cache'), 'files')
     os.makedirs(d, exist_ok=True)
+    prev_by = {}
     for i in range(N):
         prec = rng.choice(PRECS)
         cplx = prec in 'cz'; single = prec in 'sc'
@@ -1500,6 +1505,11 @@ def gen_c20(ctx):
         with open(path, 'w') as f:
             f.write(text)
         c = {'cmd': 'read', 'fmt': fmt, 'file': path}
+        if i % 3 == 0 and prev_by.get((fmt, prec)):
+            # one process reads several files: one or two earlier files of the same format and precision first
+            c['prefiles'] = ';'.join(rng.sample(prev_by[(fmt, prec)], min(len(prev_by[(fmt, prec)]), rng.choice([1, 2]))))
+        prev_by.setdefault((fmt, prec), []).append(path)
+        if len(prev_by[(fmt, prec)]) > 12: prev_by[(fmt, prec)].pop(0)
         out.append(({'variant': 'asan' if i % 2 else 'plain', 'prec': prec, 'per_process': True, 'expect': exp, 'dump': False, 'text': text if i < 40 else None}, c))
     return out
 
